@@ -167,6 +167,21 @@ func Run(cfg Config) int {
 	}
 	genSecs := time.Since(start).Seconds()
 	vc.DischargeAll(obls, cfg.WorkDir, cfg.Timeout, seed, cfg.Workers, cfg.Tier == "thorough")
+	// grouped conjunctions are reported through their conjuncts
+	var flat []*vc.Obligation
+	for _, o := range obls {
+		if len(o.Parts) > 0 {
+			for _, p := range o.Parts {
+				if p.Status == "" {
+					p.Status = "skipped"
+				}
+				flat = append(flat, p)
+			}
+		} else {
+			flat = append(flat, o)
+		}
+	}
+	obls = flat
 	// decide
 	bySolver := map[string]int{}
 	discharged := 0
